@@ -41,6 +41,8 @@ type c13Plan struct {
 	// BadPackets (close-errqueue): so many packets that cannot be parsed arrive on the idle channel that the
 	// channel's error queue overflows before Close is called.
 	BadPackets int `json:"bad_packets,omitempty"`
+	// TwoSenders (close-send): two goroutines send on the channel while it is closed.
+	TwoSenders bool `json:"two_senders,omitempty"`
 	// StallWindow >= 0 (closed-calls, conn-close, close-queue): before the close the peer stops reading; the
 	// socket still buffers that many bytes, then writes block. -1: the peer keeps reading.
 	StallWindow int `json:"stall_window"`
@@ -100,6 +102,7 @@ func (c13) Gen(r *Rand, idx int, tier string) interface{} {
 	p.LateMs = Pick(r, []int{10, 1000, 59000, 61000})
 	p.DoubleClose = r.Pct(40)
 	p.ConcurrentClose = p.Kind == "closed-calls" && r.Pct(40)
+	p.TwoSenders = p.Kind == "close-send" && r.Pct(40)
 	p.DeadPeer = p.Kind == "conn-close" && r.Pct(30)
 	p.StallWindow = -1
 	if (p.Kind == "closed-calls" || p.Kind == "conn-close" || p.Kind == "close-queue") && !p.DeadPeer && r.Pct(12) {
@@ -746,6 +749,17 @@ func c13CloseSend(p *c13Plan, res *c13Res, conn *tds.Conn, ch *tds.Channel) {
 			}
 		}
 	})
+	var sender2 *simrt.Task
+	if p.TwoSenders {
+		sender2 = simrt.Spawn("sender2", func() {
+			for i := 0; i < p.Sends; i++ {
+				err := ch.SendPackage(bg, &tds.LanguagePackage{Cmd: fmt.Sprintf("other%d", i)})
+				if err != nil && !errors.Is(err, tds.ErrChannelClosed) {
+					res.violate("wrong-error", "close-send: unexpected send error", "SendPackage (second sender) returned %q", err)
+				}
+			}
+		})
+	}
 	closer := simrt.Spawn("closer", func() {
 		for i := 0; i < p.CloseAfter; i++ {
 			simrt.Yield(0)
@@ -758,6 +772,9 @@ func c13CloseSend(p *c13Plan, res *c13Res, conn *tds.Conn, ch *tds.Channel) {
 		res.closeEnd = simrt.SimNow()
 		res.closeDone = true
 	})
+	if sender2 != nil {
+		simrt.Join(sender2)
+	}
 	simrt.Join(sender, closer)
 	if err := ch.SendPackage(bg, &tds.LanguagePackage{Cmd: "after"}); !errors.Is(err, tds.ErrChannelClosed) {
 		res.violate("no-closed-error", "closed: SendPackage returned nil", "SendPackage after Close returned %v", err)
